@@ -6,6 +6,7 @@ from .base import Adapter, points_for, with_ids
 
 
 class TSP(Adapter):
+    reward_from_actions = True
     name = "tsp"
     module = "TSP"
     multistart = True
